@@ -1503,7 +1503,7 @@ pub fn gen(tier: Tier, r: &mut Rng, emit: &mut dyn FnMut(String)) {
             cut += step;
         }
     }
-    for _ in 0..scale(4000, 200_000) {
+    for _ in 0..scale(4000, 60_000) {
         let t = match r.below(4) {
             0 => rand_bytes(r, 24),
             1 => soup(r, JSON_TOKENS, 10),
@@ -1540,14 +1540,14 @@ pub fn gen(tier: Tier, r: &mut Rng, emit: &mut dyn FnMut(String)) {
             emit(format!("C19 hex4 {}", hex_bytes(&t[..k])));
         }
     }
-    for _ in 0..scale(400, 20_000) {
+    for _ in 0..scale(400, 10_000) {
         let hexd: &[u8] = b"0123456789abcdefABCDEFgG/:@`x ";
         let n = *r.pick(&[0usize, 1, 3, 4, 4, 4, 4, 5]);
         let t: Vec<u8> = (0..n).map(|_| *r.pick(hexd)).collect();
         emit(format!("C19 hex4 {}", hex_bytes(&t)));
     }
     // DSV field slicing over arbitrary marker sets
-    for _ in 0..scale(1500, 60_000) {
+    for _ in 0..scale(1500, 20_000) {
         let len = r.range(0, 40);
         let t: Vec<u8> = (0..len).map(|_| *r.pick(b"ab,\n\"x")).collect();
         let mut m: Vec<u64> = (0..len).filter(|_| r.chance(1, 4)).collect();
@@ -1571,14 +1571,14 @@ pub fn gen(tier: Tier, r: &mut Rng, emit: &mut dyn FnMut(String)) {
         for cut in (0..b.len()).step_by(step) {
             inputs.push(b[..cut].to_vec());
         }
-        for _ in 0..scale(20, 400) {
+        for _ in 0..scale(20, 100) {
             inputs.push(mutate(r, b));
         }
         for _ in 0..scale(3, 40) {
             inputs.push(bad_utf8(r, b));
         }
     }
-    for _ in 0..scale(300, 20_000) {
+    for _ in 0..scale(300, 6_000) {
         let mut s = String::new();
         gen_json(r, 4, &mut s);
         let b = s.into_bytes();
@@ -1592,15 +1592,15 @@ pub fn gen(tier: Tier, r: &mut Rng, emit: &mut dyn FnMut(String)) {
             _ => inputs.push(bad_utf8(r, &b)),
         }
     }
-    for _ in 0..scale(500, 30_000) {
+    for _ in 0..scale(500, 8_000) {
         let m = if r.chance(1, 20) { 2000 } else { 48 };
         inputs.push(rand_bytes(r, m));
     }
-    for _ in 0..scale(700, 40_000) {
+    for _ in 0..scale(700, 10_000) {
         let m = if r.chance(1, 20) { 400 } else { 24 };
         inputs.push(soup(r, JSON_TOKENS, m));
     }
-    for _ in 0..scale(1200, 60_000) {
+    for _ in 0..scale(1200, 15_000) {
         let m = if r.chance(1, 20) { 300 } else { 20 };
         inputs.push(soup(r, YAML_TOKENS, m));
     }
@@ -1671,11 +1671,11 @@ pub fn gen(tier: Tier, r: &mut Rng, emit: &mut dyn FnMut(String)) {
         }
     }
     // ---- program parser ------------------------------------------------------------------------
-    for _ in 0..scale(3000, 300_000) {
+    for _ in 0..scale(3000, 60_000) {
         let p = crate::c30::program_soup(r);
         emit(format!("C19 jqp {}", hex_bytes(p.as_bytes())));
     }
-    for i in 0..scale(8, 3000) {
+    for i in 0..scale(8, 200) {
         let p = crate::c30::program_soup(r);
         emit(format!("C19 clip {} {}", if i % 2 == 0 { "jq" } else { "yq" }, hex_bytes(p.as_bytes())));
     }
